@@ -22,6 +22,8 @@ func main() {
 	timeout := flag.Int("t", 10, "solver timeout (s)")
 	ssaDump := flag.String("ssa", "", "print SSA of function key(s)")
 	propFlag := flag.String("prop", "", "verify every function and lemma tagged with this property")
+	replayFlag := flag.Bool("replay", false, "with -func: replay every obligation that failed with a model on the real code")
+	replayOb := flag.String("replayob", "", "with -func: do not solve; replay the obligation with this name (or name suffix, e.g. '#safe:index[1]') directly")
 	flag.Parse()
 	eng, err := loadEngine(*repo, findSpecFiles(*trusted))
 	if err != nil {
@@ -102,8 +104,15 @@ func main() {
 			fmt.Println(err)
 			os.Exit(2)
 		}
+		if *replayOb != "" {
+			devReplayOne(eng, fc, *replayOb, *repo, *out) // replay_dev.go
+			continue
+		}
 		fc.solveAll(opts, k)
 		report(fc)
+		if *replayFlag {
+			devReplay(eng, fc, *repo, *out) // replay_dev.go
+		}
 	}
 	for _, s := range eng.staleErrs {
 		fmt.Println(s)
